@@ -210,6 +210,17 @@ def check(ctx):
         rv = it.to_nf(p.value) if p.value is not None else {}
         wantT = nf.sym("@p1") if free_tau else nf.sym("tau")
         n_calls += 1
+        # the abscissae curve_fit hands to the model are whatever fit() passes as xdata: the law is judged on the
+        # composition model(xdata(time_on_production), ...), so a time axis scaled by the caller *and* by the model
+        # (or by neither) is reported, and one scaled in exactly one of the two places is not
+        xd = a.get("xdata")
+        try:
+            xdn = it.to_nf(xd) if xd is not None else None
+        except Exception:
+            xdn = None
+        if xdn is not None and xdn != nf.sym("time_on_production"):
+            rv = nf.subst_sym(rv, {"@x": xdn})
+            rv = nf.subst_sym(rv, {"time_on_production": nf.sym("@x")})
         ctx.identity(
             "C05-b", m.qualname + f":model evaluates the law [{tag}]", model_where,
             "called as curve_fit calls it, the fitted model returns the law M * rf_curve(x / tau) with the object's curve, x as time, the first parameter as M and " + ("the second parameter as tau" if free_tau else "the tau supplied to fit()"),
